@@ -141,6 +141,7 @@ func (indexer *Indexer) AddFkIndexCascadeDelete(symbol EntitySymbol, fkSymbol En
 		baseStore.AddConstraint(&fkDeleteCascadeConstraint{
 			symbol:      symbol,
 			cascadeType: CascadeDelete,
+			linkedType:  fkStore.GetEntityType(),
 		})
 	} else {
 		panic(errors.Errorf("linked store %v is not constrained, can't enforce validity of constraint on delete",
@@ -190,6 +191,7 @@ func (indexer *Indexer) AddFkConstraint(symbol EntitySymbol, nullable bool, casc
 			baseStore.AddConstraint(&fkDeleteCascadeConstraint{
 				symbol:      symbol,
 				cascadeType: cascade,
+				linkedType:  symbol.GetLinkedType().GetEntityType(),
 			})
 		} else {
 			panic(errors.Errorf("linked store %v is not constrained, can't enforce validity of constraint on delete",
@@ -1027,6 +1029,9 @@ func (index *fkConstraint) CheckIntegrity(ctx MutateContext, fix bool, errorSink
 type fkDeleteCascadeConstraint struct {
 	symbol      EntitySymbol
 	cascadeType CascadeType
+	// linkedType is the entity type of the store the constraint is registered on (the one symbol points into). The
+	// symbol itself need not know it: an fk index may be declared over a plain symbol
+	linkedType string
 }
 
 func (index *fkDeleteCascadeConstraint) Label() string {
@@ -1072,7 +1077,7 @@ func (index *fkDeleteCascadeConstraint) ProcessBeforeDelete(ctx *IndexingContext
 			// back to an entity whose delete is already under way further up the call chain: that one must be
 			// stepped over, or the deletes recurse until the stack is exhausted
 			inProgress := cascadesInProgress(ctx.Ctx)
-			self := index.symbol.GetLinkedType().GetEntityType() + "\x00" + string(ctx.RowId)
+			self := index.linkedType + "\x00" + string(ctx.RowId)
 			if _, nested := inProgress[self]; !nested {
 				inProgress[self] = struct{}{}
 				defer delete(inProgress, self)
